@@ -70,11 +70,14 @@ COND_BIAS = [14, 14, 14, 14, 14, 14, 0, 1, 2, 3, 4, 5, 6, 7, 8, 9, 10, 11, 12, 1
 
 # load/store families
 ARM_LS = [('ls_imm', 'cccc010pubwlnnnnttttiiiiiiiiiiii'), ('ls_reg', 'cccc011pubwlnnnnttttiiiiiyy0mmmm'),
-          ('xls_imm', 'cccc000pu1wlnnnnttttiiii1yy1iiii'), ('xls_reg', 'cccc000pu0wlnnnntttt00001yy1mmmm')]
+          ('xls_imm', 'cccc000pu1wlnnnnttttiiii1yy1iiii'), ('xls_reg', 'cccc000pu0wlnnnntttt00001yy1mmmm'),
+          ('ldrex', 'cccc00011zz1nnnntttt111110011111'), ('strex', 'cccc00011zz0nnnndddd11111001tttt')]
 ARM_LSM = [('lsm', 'cccc100pu0wlnnnnrrrrrrrrrrrrrrrr')]
 T32_LS = [('t32_ls_i12', '1111100s1zzlnnnnttttiiiiiiiiiiii'), ('t32_ls_i8', '1111100s0zzlnnnntttt1puwiiiiiiii'),
           ('t32_ls_reg', '1111100s0zzlnnnntttt000000iimmmm'), ('t32_lsd', '1110100pu1wlnnnnttttddddiiiiiiii'),
-          ('t32_tb', '111010001101nnnn11110000000hmmmm')]
+          ('t32_tb', '111010001101nnnn11110000000hmmmm'),
+          ('t32_strex', '111010000100nnnnttttddddiiiiiiii'), ('t32_ldrex', '111010000101nnnntttt1111iiiiiiii'),
+          ('t32_strexbhd', '111010001100nnnnttttuuuu01zzdddd'), ('t32_ldrexbhd', '111010001101nnnnttttuuuu01zz1111')]
 T32_LSM = [('t32_lsm_ia', '1110100010wlnnnnpm0rrrrrrrrrrrrr'), ('t32_lsm_db', '1110100100wlnnnnpm0rrrrrrrrrrrrr')]
 
 
